@@ -432,18 +432,22 @@ class FieldStorage:
         if has_read > max_read:
             raise BodySizeError('Max in-memory read limit exceed')
         src.seek(start)
-        headers_raw = src.read(sz).decode()
-        for header_raw in headers_raw.splitlines():
-            header = self.parse_header(header_raw)
-            self.headers[header.name] = header
-            if header.name == 'Content-Disposition':
-                self.name = header.options['name']
-                self.filename = header.options.get('filename')
-            elif header.name == 'Content-Type':
-                self.ctype = header.value
+        try:
+            headers_raw = src.read(sz).decode()
+            for header_raw in headers_raw.splitlines():
+                header = self.parse_header(header_raw)
+                self.headers[header.name] = header
+                if header.name == 'Content-Disposition':
+                    self.name = header.options['name']
+                    self.filename = header.options.get('filename')
+                elif header.name == 'Content-Type':
+                    self.ctype = header.value
+        except (ValueError, KeyError, StopIteration) as exc:
+            # not UTF-8, no colon, empty value, no `name` parameter
+            raise BodyParsingError(f'Malformed headers of a multipart/formdata part: {exc!r}')
 
         if self.name is None:
-            raise BodyParsingError(f'Noname field found while parsing multipart/formdata body: {header_raw}')
+            raise BodyParsingError(f'Noname field found while parsing multipart/formdata body: {headers_raw}')
 
         if self.filename is not None:
             self.file = BytesIOProxy(src, *data_section)
@@ -455,7 +459,10 @@ class FieldStorage:
                 if has_read > max_read:
                     raise BodySizeError('Max in-memory read limit exceed')
                 src.seek(start)
-                self.value = src.read(sz).decode()
+                try:
+                    self.value = src.read(sz).decode()
+                except UnicodeDecodeError as exc:
+                    raise BodyParsingError(f'Text field `{self.name}` is not valid UTF-8: {exc!r}')
             else:
                 self.value = ''
         return has_read
